@@ -345,7 +345,7 @@ pub fn c11_complement_adjacency_list_n3_t2() {
 }
 
 // The same with the thread count symbolic in 1..=4 (all chunkings in one query).
-// @verif prop=C11 tier=thorough fl=f2 role=complement/adjacency-list t=3600 mem=30
+// @verif prop=C11 tier=exp fl=f2 role=complement/adjacency-list t=3600 mem=30
 #[cfg_attr(kani, kani::proof)]
 #[cfg_attr(kani, kani::unwind(8))]
 pub fn c11_complement_adjacency_list_n3_p4() {
@@ -366,7 +366,7 @@ pub fn c11_complement_edge_list_n3() {
     complement::<EdgeList, 3>(1);
 }
 
-// @verif prop=C11 tier=thorough fl=f1 feat=map4 role=complement/adjacency-map t=3600 mem=30
+// @verif prop=C11 tier=thorough fl=f1 feat=map4 role=complement/adjacency-map t=3600 mem=16
 #[cfg_attr(kani, kani::proof)]
 #[cfg_attr(kani, kani::unwind(10))]
 pub fn c11_complement_adjacency_map_n3() {
@@ -394,7 +394,7 @@ pub fn c11_converse_edge_list_n3() {
     converse::<EdgeList, 3>();
 }
 
-// @verif prop=C11 tier=thorough fl=f2 feat=map4 role=converse/adjacency-map t=3600 mem=30
+// @verif prop=C11 tier=thorough fl=f2 feat=map4 role=converse/adjacency-map t=3600 mem=24
 #[cfg_attr(kani, kani::proof)]
 #[cfg_attr(kani, kani::unwind(10))]
 pub fn c11_converse_adjacency_map_n3() {
@@ -452,7 +452,7 @@ pub fn c11_union_adjacency_map_n2_m2_p4() {
     union::<AdjacencyMap, 2, 2, 2>(4);
 }
 
-// @verif prop=C11 tier=thorough fl=f2 feat=map4 role=filter/adjacency-map t=3600 mem=30
+// @verif prop=C11 tier=thorough fl=f2 feat=map4 role=filter/adjacency-map t=3600 mem=16
 #[cfg_attr(kani, kani::proof)]
 #[cfg_attr(kani, kani::unwind(10))]
 pub fn c11_filter_adjacency_map_n3() {
